@@ -57,20 +57,20 @@ Definition i64_max : Z := 2 ^ 63 - 1.
 Definition in_i64 (z : Z) : bool := (i64_min <=? z) && (z <=? i64_max).
 
 (** Rust's [str::parse::<i64>]: optional sign, at least one ASCII digit, no overflow. *)
+Definition parse_go (neg : bool) (ds : str) : option Z :=
+  match ds with
+  | [] => None
+  | _ => match digits_val 0 ds with
+         | Some v => let v' := if neg then - v else v in
+                     if in_i64 v' then Some v' else None
+         | None => None
+         end
+  end.
 Definition parse_i64 (s : str) : option Z :=
-  let go (neg : bool) (ds : str) :=
-    match ds with
-    | [] => None
-    | _ => match digits_val 0 ds with
-           | Some v => let v' := if neg then - v else v in
-                       if in_i64 v' then Some v' else None
-           | None => None
-           end
-    end in
   match s with
-  | 43%N :: ds => go false ds
-  | 45%N :: ds => go true ds
-  | _ => go false s
+  | 43%N :: ds => parse_go false ds
+  | 45%N :: ds => parse_go true ds
+  | _ => parse_go false s
   end.
 
 Definition NL : char := 10%N.
